@@ -453,6 +453,23 @@ def check_decode_into_overrides(out, facts, S):
         out.ob('R02.5', key, a == b, 'the in-place entry point does not perform the input effects of decode: decode_into %s vs decode %s' % (a, b), f_into['loc'],
                sample={'decode_into': a, 'decode': b})
     out.count('R02.5 decode_into overrides [%s]' % cfg, n)
+    # the trait default is the in-place entry point of every type that does not override it: on every path it decodes one
+    # `Self` (whatever the size of the type in memory: a zero-sized enum still has an index byte) and nothing else
+    d = facts.trait_default('Decode', 'decode_into')
+    key = 'Decode::decode_into default [%s]' % cfg
+    if not d:
+        out.fail('R02.5', key, 'trait default not found (anchor missing)', '-')
+        return
+    t, _, _ = wire.infer_decoder_fn(facts, d)
+    bad = []
+    np = 0
+    for p in paths(t):
+        np += 1
+        eff = [(e[0], e[1] if e[0] == 'dec' else None, e[3] if e[0] == 'dec' else None) for e in p if e[0] in ('dec', 'read', 'HOOK', 'DESC', 'ASC', 'skip')]
+        if eff != [('dec', 'Self', 'decode')]:
+            bad.append(str(eff))
+    out.ob('R02.5', key, np > 0 and not bad, 'the default in-place entry point does not decode exactly one Self on every path: %s' % '; '.join(sorted(set(bad))[:3]), d['loc'],
+           sample={'term': sym.tstr(t)[:200]})
 
 
 def check_arrays(out, facts):
